@@ -258,14 +258,24 @@ fn f_one<F: Fl, A: FArith<F>>(name: &str, a: &mut A, case: &FCase, wide: bool, p
 
 fn check_f(case: &FCase, p: &mut Probe) -> Check {
     macro_rules! all64 {
-        ($($t:ident),*) => { $( f_one::<f64, $t>(stringify!($t), &mut super::impls::mk(<$t>::new, case.tag & 0x100 != 0), case, false, p)?; p.inner += 1; )* };
+        ($($t:ident),*) => { $( {
+            let mut a = super::impls::mk(<$t>::new, case.tag & 0x100 != 0);
+            // one case in sixteen: the object built here is used on another thread
+            if case.tag & 0xf000 == 0x3000 { on_other_thread(|| f_one::<f64, $t>(stringify!($t), &mut a, case, false, p))?; } else { f_one::<f64, $t>(stringify!($t), &mut a, case, false, p)?; }
+            p.inner += 1;
+        } )* };
     }
     macro_rules! all32 {
-        ($($t:ident),*) => { $( f_one::<f32, $t>(stringify!($t), &mut super::impls::mk(<$t>::new, case.tag & 0x100 != 0), case, false, p)?; p.inner += 1; )* };
+        ($($t:ident),*) => { $( {
+            let mut a = super::impls::mk(<$t>::new, case.tag & 0x100 != 0);
+            if case.tag & 0xf000 == 0x3000 { on_other_thread(|| f_one::<f32, $t>(stringify!($t), &mut a, case, false, p))?; } else { f_one::<f32, $t>(stringify!($t), &mut a, case, false, p)?; }
+            p.inner += 1;
+        } )* };
     }
     crate::with_f64_types!(all64);
     crate::with_f32_types!(all32);
     p.class_if(case.vals.len() >= 11, "degree>=11");
+    p.class_if(case.tag & 0xf000 == 0x3000, "object-used-on-another-thread");
     p.class_if(case.warm.len() > case.vals.len(), "after-larger-check");
     Ok(())
 }
@@ -402,7 +412,13 @@ fn check_i8(case: &I8Case, p: &mut Probe) -> Check {
                     p.class("after-a-layered-update");
                 }
             }
-            i8_check_vector(stringify!($t), &mut a, &case.vals, &sources, p)?;
+            // one case in sixteen: the object built (and warmed up) here is used on another thread
+            if case.tag & 0xf000 == 0x3000 {
+                on_other_thread(|| i8_check_vector(stringify!($t), &mut a, &case.vals, &sources, p))?;
+                p.class("object-used-on-another-thread");
+            } else {
+                i8_check_vector(stringify!($t), &mut a, &case.vals, &sources, p)?;
+            }
             p.inner += 1;
         } )* };
     }
